@@ -118,7 +118,25 @@ def cmd_check(prop, tier):
     known_what = {}
     samples = []
     violations = []
+    regressions = []
     harness = None
+    # regression replays: the committed history of every finding recorded as
+    # fixed for this property must pass; it is reported again if it returns
+    for e in findings.entries:
+        if e.get("property") != prop or e.get("status") != "fixed" or not e.get("replay"):
+            continue
+        rp = os.path.join(VERIF_DIR, e["replay"])
+        if not os.path.exists(rp):
+            continue
+        doc = kernel.load_replay(rp)
+        r = execute(engine_cls, prop, cfg=doc["cfg"], ops=doc["ops"], findings=findings)
+        stats.probe("regression_replays")
+        if r.harness_error:
+            print(f"HARNESS-ERROR in regression replay {rp}: {r.harness_error}")
+            sys.exit(2)
+        if r.violation is not None:
+            print(f"regression: fixed finding {e['id']} is back: {r.violation!r}")
+            regressions.append(e["replay"])
     ctx = multiprocessing.get_context("fork")
     next_start = 0
     stop_submit = False
@@ -184,11 +202,14 @@ def cmd_check(prop, tier):
         replay_paths.append(path)
         exit_code = 1
 
+    for rp in regressions:
+        replay_paths.append(rp)
+        exit_code = 1
     for k in sorted(known):
         print(f"KNOWN-FINDING: property={prop} {known_what[k]} [id={k}, hit in {known[k]} runs]")
 
     wall = time.time() - t0
-    write_evidence(prop, tier, base_seed, spec, total, nontrivial, stats, known, samples, violations, wall, det, workers)
+    write_evidence(prop, tier, base_seed, spec, total, nontrivial, stats, known, samples, violations, wall, det, workers, regressions)
     print(f"{prop} {tier}: runs={total['runs']} steps={total['steps']} nontrivial_distinct={len(nontrivial)} "
           f"transitions={len(stats.transitions)} states={len(stats.states)} known_hits={sum(known.values())} wall={wall:.1f}s")
     for p in replay_paths:
@@ -207,7 +228,7 @@ def selftest_fresh(prop, tier, base_seed, start, count, digests):
     if p.returncode != 0:
         return {"checked": 0, "mismatch": [("subprocess", p.stderr[-500:])]}
     got = json.loads(p.stdout.strip().splitlines()[-1])
-    mism = [(i, d, digests.get(i)) for i, d in got if digests.get(i) != d]
+    mism = [(i, d, digests.get(i)) for i, d in got if i in digests and digests.get(i) != d]
     return {"checked": len(got), "mismatch": mism}
 
 
@@ -240,7 +261,7 @@ def minimise_and_record(prop, engine_cls, v, findings):
     return path, "ok"
 
 
-def write_evidence(prop, tier, base_seed, spec, total, nontrivial, stats, known, samples, violations, wall, det, workers):
+def write_evidence(prop, tier, base_seed, spec, total, nontrivial, stats, known, samples, violations, wall, det, workers, regressions=()):
     faults = {k[len("fault:"):]: v for k, v in stats.c.items() if k.startswith("fault:")}
     envv = {k[len("env:"):]: v for k, v in stats.c.items() if k.startswith("env:")}
     probes = {k: v for k, v in sorted(stats.c.items()) if not k.startswith(("fault:", "env:"))}
@@ -275,7 +296,7 @@ def write_evidence(prop, tier, base_seed, spec, total, nontrivial, stats, known,
         "coverage": cov,
         "assumptions": spec.get("assumptions", []),
         "wall_s": round(wall, 2),
-        "violations": len(violations),
+        "violations": len(violations) + len(regressions),
     }
     os.makedirs(os.path.join(VERIF_DIR, "evidence"), exist_ok=True)
     with open(os.path.join(VERIF_DIR, "evidence", f"{prop}.json"), "w") as f:
